@@ -61,6 +61,15 @@ var (
 	tL1   = reflect.TypeOf(L1(nil))
 	tM1   = reflect.TypeOf(M1(nil))
 	tFn   = reflect.TypeOf(Fn(nil))
+	// composite types without a name of their own: types like any other for
+	// the injector (a row of arguments, a list of names, a generic document, a
+	// plain callback, a pair, a pointer to a named number)
+	tAnys  = reflect.TypeOf([]interface{}(nil))
+	tStrs  = reflect.TypeOf([]string(nil))
+	tDoc   = reflect.TypeOf(map[string]interface{}(nil))
+	tFunc0 = reflect.TypeOf((func() int)(nil))
+	tPair  = reflect.TypeOf([2]N1{})
+	tPN1   = reflect.TypeOf((*N1)(nil))
 )
 
 // dupA / dupB declare two different types that print alike ("c04.Dup"): types
@@ -85,12 +94,13 @@ var universe = map[string]reflect.Type{
 	"S1": tS1, "S2": tS2, "S3": tS3, "*S1": tPS1, "*S2": tPS2, "*S3": tPS3,
 	"N1": tN1, "N2": tN2, "chan": tChan, "<-chan": tRecv, "I1": tI1, "I2": tI2, "I3": tI3, "I4": tI4,
 	"I0": tI0, "L1": tL1, "M1": tM1, "Fn": tFn, "DupA": tDupA, "DupB": tDupB,
+	"[]any": tAnys, "[]string": tStrs, "map[string]any": tDoc, "func()int": tFunc0, "[2]N1": tPair, "*N1": tPN1,
 }
 
-var typeNames = []string{"S1", "S2", "S3", "*S1", "*S2", "*S3", "N1", "N2", "chan", "<-chan", "I1", "I2", "I3", "I4", "I0", "L1", "M1", "Fn", "DupA", "DupB"}
+var typeNames = []string{"S1", "S2", "S3", "*S1", "*S2", "*S3", "N1", "N2", "chan", "<-chan", "I1", "I2", "I3", "I4", "I0", "L1", "M1", "Fn", "DupA", "DupB", "[]any", "[]string", "map[string]any", "func()int", "[2]N1", "*N1"}
 
 // concrete lists the types a value can be made of.
-var concreteNames = []string{"S1", "S2", "S3", "*S1", "*S2", "*S3", "N1", "N2", "chan", "L1", "M1", "Fn", "DupA", "DupB"}
+var concreteNames = []string{"S1", "S2", "S3", "*S1", "*S2", "*S3", "N1", "N2", "chan", "L1", "M1", "Fn", "DupA", "DupB", "[]any", "[]string", "map[string]any", "func()int", "[2]N1", "*N1"}
 
 // nillable says whether the concrete type has a typed nil, which is a value
 // like any other for the injector.
@@ -137,6 +147,20 @@ func mkValue(name string, id int) reflect.Value {
 		return reflect.ValueOf(M1{"id": id})
 	case "Fn":
 		return reflect.ValueOf(Fn(func() int { return id }))
+	case "[]any":
+		// its elements are values of other types of the universe
+		return reflect.ValueOf([]interface{}{N1(1000 + id), &S1{1000 + id}, "row", N2("in-a-row")})
+	case "[]string":
+		return reflect.ValueOf([]string{"s-" + itoa(id)})
+	case "map[string]any":
+		return reflect.ValueOf(map[string]interface{}{"id": id, "n1": N1(1000 + id)})
+	case "func()int":
+		return reflect.ValueOf(func() int { return id })
+	case "[2]N1":
+		return reflect.ValueOf([2]N1{N1(id), N1(-id)})
+	case "*N1":
+		n := N1(id)
+		return reflect.ValueOf(&n)
 	case "DupA":
 		return mkDupA(id)
 	case "DupB":
@@ -195,8 +219,8 @@ func same(a, b reflect.Value) bool {
 	case reflect.Slice:
 		return a.Pointer() == b.Pointer() && a.Len() == b.Len()
 	case reflect.Func:
-		// every Fn value is its own closure carrying its id
-		return a.Interface().(Fn)() == b.Interface().(Fn)()
+		// every function value is its own closure carrying its id
+		return a.Call(nil)[0].Int() == b.Call(nil)[0].Int()
 	}
 	return a.Interface() == b.Interface()
 }
